@@ -4,6 +4,10 @@ from pyvc.tables import Gen
 from pyvc.unit import NotGenerated
 
 
+PURE_ANALYSES = {"core.has_side_effect", "core.is_blocking", "core._is_exception", "core._loop_may_be_left", "core.literal_value", "core._literal_value", "core.match_template",
+                 "core._match_list", "core._match_set", "core._match_tuple", "core._match_wildcard", "core.merge_matches", "core.walk", "core.walk_wildcard", "core.walk_sequence",
+                 "core.filter_nodes", "core.get_charnos", "core.get_code", "core.has_ignore_comment", "core.unparse", "parsing.safe_callable_names", "parsing.assignment_targets",
+                 "tracing.get_imported_names", "tracing.get_defined_names", "fixes._get_uses_of", "fixes._iter_unused_names", "abstractions.hash_node"}
 REVIEWED_CACHES = {"core._get_line_start_charnos", "core._group_nodes_in_scope", "core._issubclas_cache", "core._make_match_type", "core.compile_template", "core.is_valid_python",
                    "core.parse", "core.parse_line_length_from_pyproject_toml", "tracing.trace_origin"}
 
@@ -21,6 +25,10 @@ def generate(g: Gen):
             name = f"{kind}:{text}"
             if recv.kind in ("FRESH", "DEEP", "IMM"):
                 g.oblige("frame", f"{key}:{name}", [], z3.BoolVal(True), line)
+            elif recv.kind == "PARAM" and key in PURE_ANALYSES and not kind.startswith("call:"):
+                # the analyses every rule relies on are called again and again with the same tree / whitelist / preserve set: a write through one
+                # of their parameters makes a later answer depend on the earlier questions (C05), whoever owns the argument
+                g.oblige("frame", f"{key}:{name}:analysis-writes-through-its-parameter-{'-'.join(sorted(recv.params))}", [], z3.BoolVal(False), line)
             elif recv.kind == "PARAM":
                 # accounted to the caller: every call site passing this parameter is its own obligation (kind call:...)
                 g.oblige("frame", f"{key}:{name}:through-parameter-{'-'.join(sorted(recv.params))}", [], z3.BoolVal(True), line)
